@@ -471,7 +471,10 @@ pub fn gen(focus: &str, seed: u64, count: u64) -> Vec<String> {
             body.split(' ').map(|t| if t.starts_with("angle=") { format!("angle={}", fmt_f(a)) } else { t.to_string() }).collect::<Vec<_>>().join(" ")
         } else { body };
         // C11: structures at very small and very large length scales (what is written must be the structure, not a tidied one)
-        let body = if focus == "C11" && body.contains(" len=") && !body.contains("mode=") && g.chance(0.08) {
+        // (not for the nearly flat cells above: a huge, nearly flat cell has area but next to no height, and scoring it
+        //  asks for ~1e6 shells of images - the crate's shell count is right, it just never finishes)
+        let flat = body.split(' ').find_map(|t| t.strip_prefix("angle=")).map(|v| parse_f(v).sin().abs() < 0.2).unwrap_or(false);
+        let body = if focus == "C11" && body.contains(" len=") && !body.contains("mode=") && !flat && g.chance(0.08) {
             let k = *g.pick(&[1e-13, 1e-20, 1e-30, 1e-6, 1e10, 1e30]);
             body.split(' ').map(|t| {
                 if let Some(v) = t.strip_prefix("len=") { format!("len={}", fmt_f(parse_f(v) * k)) } else { t.to_string() }
